@@ -82,7 +82,8 @@ def run(module, cfg, *, workers=16, timeout=900, simulate=None, depth=None,
         for name, text in (extra_files or {}).items():
             (scratch / name).write_text(text)
         (scratch / (module + ".cfg")).write_text(cfg)
-        cmd = ["java", "-XX:+UseParallelGC", "-Xmx12g", *java_opts,
+        cmd = ["java", "-XX:+UseParallelGC", "-Xmx12g",
+               "-Djava.io.tmpdir=" + str(scratch), *java_opts,
                "-cp", CP, "tlc2.TLC",
                "-workers", str(workers), "-metadir", str(scratch / "md"),
                "-noGenerateSpecTE", "-config", module + ".cfg"]
